@@ -154,10 +154,10 @@ func (h *harness) builderEdge(c *Chain, path []Rec, st *Post, e AccEdge, withRem
 					}
 				}
 				if !good {
-					h.keyViolate("builder:invite-key", fmt.Sprintf("the open invite built by the client builder does not give its key holder the current read key (path %v)", path), h.robj(path, &e.Rec, false, "builder"))
+					h.keyViolate("builder:invite-key", fmt.Sprintf("the open invite built by the client builder does not give its key holder the current read key (path %v)", path), h.robj(c, path, &e.Rec, false, "builder"))
 				}
 			} else if len(iv.EncryptedReadKey) != 0 {
-				h.keyViolate("builder:request-invite-carries-key", fmt.Sprintf("the request-to-join invite built by the client builder carries a read key ciphertext (path %v)", path), h.robj(path, &e.Rec, false, "builder"))
+				h.keyViolate("builder:request-invite-carries-key", fmt.Sprintf("the request-to-join invite built by the client builder carries a read key ciphertext (path %v)", path), h.robj(c, path, &e.Rec, false, "builder"))
 			}
 		}
 		return
@@ -244,14 +244,14 @@ func (h *harness) builderEdge(c *Chain, path []Rec, st *Post, e AccEdge, withRem
 				}
 				h.keyViolate("builder:rotation-recipients:"+ct.K+":"+what,
 					fmt.Sprintf("the client builder's %s encrypts the new read key for accounts %v invites %v; the principals that keep standing are %v / %v (removed %v, revoked %v) after %v",
-						ct.K, sortedCopy(gotA), sortedCopy(gotI), expA, expI, removed, revoked, path), h.robj(path, &e.Rec, false, "builder"))
+						ct.K, sortedCopy(gotA), sortedCopy(gotI), expA, expI, removed, revoked, path), h.robj(c, path, &e.Rec, false, "builder"))
 			}
 			if rk.EncryptedOldReadKey != nil {
 				encOld = append(encOld, rk.EncryptedOldReadKey)
 				if dec, ok := safeDecrypt(newKey.Decrypt, rk.EncryptedOldReadKey); !ok {
-					h.keyViolate("builder:old-key-not-wrapped:"+ct.K, fmt.Sprintf("the rotation built for %s does not carry the previous read key under the new one (path %v)", e.Rec, path), h.robj(path, &e.Rec, false, "builder"))
+					h.keyViolate("builder:old-key-not-wrapped:"+ct.K, fmt.Sprintf("the rotation built for %s does not carry the previous read key under the new one (path %v)", e.Rec, path), h.robj(c, path, &e.Rec, false, "builder"))
 				} else if k, err := crypto.UnmarshallAESKeyProto(dec); err != nil || !k.Equals(curKey) {
-					h.keyViolate("builder:old-key-not-wrapped:"+ct.K, fmt.Sprintf("the rotation built for %s wraps a key that is not the previous read key (path %v)", e.Rec, path), h.robj(path, &e.Rec, false, "builder"))
+					h.keyViolate("builder:old-key-not-wrapped:"+ct.K, fmt.Sprintf("the rotation built for %s wraps a key that is not the previous read key (path %v)", e.Rec, path), h.robj(c, path, &e.Rec, false, "builder"))
 				}
 			}
 		}
@@ -274,7 +274,7 @@ func (h *harness) builderEdge(c *Chain, path []Rec, st *Post, e AccEdge, withRem
 				}
 			}
 			if !good {
-				h.keyViolate("builder:admission-key:"+ct.K+batchTag(withRemoval), fmt.Sprintf("the %s built by the client builder does not give %s the current read key (path %v)", ct.K, to, path), h.robj(path, &e.Rec, false, "builder"))
+				h.keyViolate("builder:admission-key:"+ct.K+batchTag(withRemoval), fmt.Sprintf("the %s built by the client builder does not give %s the current read key (path %v)", ct.K, to, path), h.robj(c, path, &e.Rec, false, "builder"))
 			}
 		}
 	}
